@@ -13,6 +13,9 @@
 #include "cts_types.h"
 //@LIFT consts
 #include "word.h"
+#ifdef U_OWNERSHIP
+//@LIFT census
+#endif
 
 static struct thread_state any_word(void) { struct thread_state w; w.state_ = nondet_i64(); return w; }
 
